@@ -90,6 +90,8 @@ func loginFlow(r *Run, c hCfg, sh compliantShape, path, query string, further in
 	} else if !ck.Expires.IsZero() {
 		cookieLife = int64(ck.Expires.Sub(s.w.rig.clock.Now()) / time.Second)
 	}
+	// whatever else the browser's jar holds for this host travels along with the session cookie
+	jar := pick(r.Rng, []string{"", "", "theme=dark; ", `prefs={"a":1,"b":[2]}; `, "a[b]=c; =nameless; flag; ", "ville=Besançon;", "tok=YWJj==; "})
 	u, _ := url.Parse(loc)
 	state := u.Query().Get("state")
 	redirectURI := u.Query().Get("redirect_uri")
@@ -110,7 +112,7 @@ func loginFlow(r *Run, c hCfg, sh compliantShape, path, query string, further in
 		cbPath += "?" + cb.RawQuery
 	}
 	q2 := hReq{Scheme: cb.Scheme, Host: cb.Host, Path: cbPath + sep + "code=" + s.uniq("code") + "&state=" + url.QueryEscape(state),
-		Cookie: ck.Name + "=" + ck.Value, Gen: [4]string{s.uniq("sid"), s.uniq("nonce"), s.uniq("state"), s.uniq("VERIFIER-marker")}, KeysOK: true, IDP: sh.answer(s, nonce)}
+		Cookie: jar + ck.Name + "=" + ck.Value, Gen: [4]string{s.uniq("sid"), s.uniq("nonce"), s.uniq("state"), s.uniq("VERIFIER-marker")}, KeysOK: true, IDP: sh.answer(s, nonce)}
 	_ = iss
 	o2 := s.do(q2)
 	den2 := o2.Resp.GetDeniedResponse()
@@ -138,7 +140,7 @@ func loginFlow(r *Run, c hCfg, sh compliantShape, path, query string, further in
 		if i > 0 && i%2 == 0 {
 			p = "/other/page?x=" + fmt.Sprint(i)
 		}
-		cookieHdr := ck.Name + "=" + ck.Value
+		cookieHdr := jar + ck.Name + "=" + ck.Value
 		if cookieLife >= 0 && elapsed >= cookieLife {
 			cookieHdr = "" // the browser has discarded the cookie
 			r.Dist["browser-dropped-expired-cookie"]++
